@@ -1,0 +1,30 @@
+//go:build verif
+
+package virtualtable
+
+// C13 (alias bookkeeping): after a successful RemoveAliases none of the removed
+// alias names resolves to the index any more in the in-memory alias map that
+// index-name expansion reads.  The alias *files* are outside the verifier's
+// reach (their helpers are assumed to touch files only).
+// Checked by /verif/bin/govc.  Comment-only file.
+
+//@ func GetAliases
+//@   assumed
+//@   pure
+//@ end
+//@ func removeAliasFile
+//@   assumed
+//@   pure
+//@ end
+//@ func writeAliasFile
+//@   assumed
+//@   pure
+//@ end
+
+//@ func RemoveAliases
+//@   props C13
+//@   ensures [alias-no-longer-resolves] implies(result == nil, forall(k, 0, len(aliases), !haskey(aliasToIndexNames[orgid][aliases[k]], indexName)))
+//@   loop 1:
+//@     invariant 0 <= i && i <= alLen && alLen == len(aliases)
+//@     invariant forall(k, 0, i, !haskey(aliasToIndexNames[orgid][aliases[k]], indexName))
+//@ end
